@@ -1,281 +1,41 @@
 /-
-Props/Ties — T1/T2 ties for the filter code (DESIGN §5.1, §5.2).
+Props/Ties — UMBRELLA only: T1/T2 ties for the filter code (DESIGN §5.1, §5.2).
 
 The hand-written evaluator model (Impl/Basic.lean: validateTy, validateAny, cmpValidatorTy, valStep,
 cmpTest, comparator; Build.lean: rank, mkEq, mkOrd, litTyOfVal) is shown equal to descriptions that
-are REGENERATED from /repo on every run:
+are REGENERATED from /repo on every run, read through the interpretation in Ties/Sem.lean. Lean checks
+a module as a whole, so the ties are split by what they depend on — one broken tie then only breaks
+the property checks that list its module:
 
-  Gen/Validators.lean    the case tables of syntax_basic_type_validator_*.go
-  Gen/Comparators.lean   one record per syntax_query_compare_comparator_*.go
-  Gen/OperandOrder.lean  pushCompareEQ/NE/GE/GT/LE/LT and their helpers as Lean functions
-  Gen/Facts.lean         structural facts, compared with Ties/Expect.lean
+  Props/TiesValidators.lean     Gen/Validators.lean    T_validator_*     (proofs: Lemmas/TiesValidators)
+  Props/TiesComparators.lean    Gen/Comparators.lean   T_comparator_*    (proofs: Lemmas/TiesComparators; rests on the validators)
+  Props/TiesOrder.lean          Gen/OperandOrder.lean  T_order_*         (proofs: Lemmas/TiesOrder)
+  Props/Facts/<Table>.lean      one table of Gen/Facts.lean vs Ties/Expect.lean: facts_<table> and the
+                                fact_* tripwires that read that table only
+        Writes  PkgVarAssign  Returns  FilterInput  Pool  ParseWrapper  ParserRefs  Panics  Assertions  Index0  PkgVars
+  Props/Facts/FactMarkersNeverWritten.lean   tripwire over writes + pkgVarAssign (no comparison with Expect)
+  Props/Facts/FactParseWrapper.lean          tripwire over parseWrapper + parserRefs (no comparison with Expect)
+  Props/Facts/Col.lean                       `Ties.col`, the column accessor of the tripwires
 
-read through the interpretation in Ties/Sem.lean. A source change that alters the behaviour of one
-of these files makes its generator stop (`untranslatable`) or changes the generated value, and then
-the theorem below that mentions it no longer checks.
-Only statements here; proofs are in Lemmas/Ties.lean.
+This file exists so that `import JPV.Props.Ties` keeps meaning "all ties". NOTHING in the package
+should import it (it fails when ANY tie fails): import exactly the split modules you use, and list
+exactly those in the property's module list.
 -/
-import JPV.Lemmas.Ties
-import JPV.Gen.Facts
-import JPV.Ties.Expect
-namespace JPV
-namespace Ties
-open Impl Build
-
-/-! ## 1. validators -/
-
-/-- the generated table of the Go struct that `pushCompareEQ` instantiates for a literal type is the
-    one `validateTy` is compared with -/
-theorem T_validator_table (ty : LitTy) : Gen.Validators.table (vrefOfLitTy ty) = some (genTable ty) :=
-  genTable_eq ty
-
-/-- **One cell.** Looking the cell's dynamic type up in the regenerated case table gives exactly what
-    `validateTy ty` does to that cell: the same contribution to `found`, the same new cell, and a
-    write is logged iff the case body writes. -/
-theorem T_validator_cell (ty : LitTy) (c : Cell) :
-    validateTy ty [c] =
-      (((genTable ty).act (cellTy c)).found,
-       [applyWrite ((genTable ty).act (cellTy c)).write c],
-       ((genTable ty).act (cellTy c)).write.count) :=
-  validateTy_cell ty c
-
-/-- **The loop.** `validateTy ty` is the regenerated table run over the list. -/
-theorem T_validator_list (ty : LitTy) (cells : List Cell) :
-    validateTy ty cells = runValidator (genTable ty) cells :=
-  validateTy_eq_run ty cells
-
-/-- `validateAny` is the recognised early-return loop of the any-value validator. -/
-theorem T_validator_any (cells : List Cell) :
-    validateAny cells = runAny Gen.Validators.anyValueLoop cells :=
-  validateAny_eq_run cells
-
-/-- a json.Number is converted (one write), a string is blanked (one write), the marker is left alone -/
-example : validateTy .num [.val (.jnum 3), .val (.str "x"), .empty, .val (.num 4)] =
-    (true, [.val (.num 3), .empty, .empty, .val (.num 4)], 2) := rfl
-example : runValidator Gen.Validators.numericTable [.val (.jnum 3), .val (.str "x"), .empty, .val (.num 4)] =
-    (true, [.val (.num 3), .empty, .empty, .val (.num 4)], 2) := rfl
-example : runAny Gen.Validators.anyValueLoop [.empty, .val .null] = true := rfl
-
-/-! ## 2. comparators -/
-
-/-- which validator each comparator struct embeds -/
-theorem T_comparator_embeds (c : Cmp) :
-    (cmpRec c).validator =
-      (match c with
-       | .directEq _ => VRef.iface | .deepEq => .anyValue | .regex _ => .string | _ => .numeric) :=
-  cmpRec_validator c
-
-/-- `cmpValidatorTy` names the embedded validator (for DirectEQ: the one put into the interface field) -/
-theorem T_comparator_validator (c : Cmp) :
-    (match cmpValidatorTy c with | some ty => vrefOfLitTy ty | none => VRef.anyValue) = instValidator c :=
-  cmpValidatorTy_eq c
-
-/-- `valStep c` is `validate` of that validator, with the same write log -/
-theorem T_comparator_valStep (c : Cmp) (lv : VL) (st : St) :
-    runValStep (instValidator c) lv st = some (valStep c lv st) :=
-  valStep_eq c lv st
-
-/-- only DirectEQ does not skip marker cells -/
-theorem T_comparator_skip (c : Cmp) :
-    (cmpRec c).skipMarker = (match c with | .directEq _ => false | _ => true) := by
-  cases c <;> rfl
-
-/-- `cmpTest` is the regenerated test: operator and type assertion -/
-theorem T_comparator_test (env : Env) (c : Cmp) (l r : Val) :
-    cmpTest env c l r = evalTest env (cmpRec c).test (cmpRe c) l r :=
-  cmpTest_eq env c l r
-
-/-- **The loop.** `comparator` is the regenerated record run forward over the list: same result flag,
-    same list afterwards, same number of writes, same panic. -/
-theorem T_comparator_loop (env : Env) (c : Cmp) (r : Val) (cells : List Cell) :
-    comparator env c r cells = runCmp env (cmpRec c) (cmpRe c) r cells :=
-  comparator_eq_run env c r cells
-
-example : comparator ⟨fun _ => none, fun _ => none, fun _ _ => false⟩ .lt (.num 3)
-    [.val (.num 1), .empty, .val (.num 5)] = .ok (true, [.val (.num 1), .empty, .empty], 1) := rfl
-example : runCmp ⟨fun _ => none, fun _ => none, fun _ _ => false⟩ Gen.Comparators.lt "" (.num 3)
-    [.val (.num 1), .empty, .val (.num 5)] = .ok (true, [.val (.num 1), .empty, .empty], 1) := rfl
-/-- DirectEQ writes the marker again over a marker cell -/
-example : runCmp ⟨fun _ => none, fun _ => none, fun _ _ => false⟩ Gen.Comparators.directEQ "" (.num 3)
-    [.empty, .val (.num 3)] = .ok (true, [.empty, .val (.num 3)], 1) := rfl
-
-/-! ## 3. operand ordering -/
-section
-open Gen.OperandOrder
-
-/-- the generator found exactly the six procedures -/
-theorem T_order_procedures :
-    procedures.map (·.1) =
-      ["pushCompareEQ", "pushCompareNE", "pushCompareGE", "pushCompareGT", "pushCompareLE", "pushCompareLT"] :=
-  procedures_names
-
-/-- **Termination.** With fuel 3 (hence with any larger fuel) no procedure runs out of fuel, for every
-    pair of abstract operands — including the flag/kind combinations the actions never produce. -/
-theorem T_order_terminates (n : Nat) (a b : Opnd) (stk : Stack) :
-    isOutOfFuel (pushCompareEQ (n + 3) a b stk) = false ∧ isOutOfFuel (pushCompareNE (n + 3) a b stk) = false ∧
-    isOutOfFuel (pushCompareGE (n + 3) a b stk) = false ∧ isOutOfFuel (pushCompareGT (n + 3) a b stk) = false ∧
-    isOutOfFuel (pushCompareLE (n + 3) a b stk) = false ∧ isOutOfFuel (pushCompareLT (n + 3) a b stk) = false :=
-  ⟨pushCompareEQ_no_loop n a b stk, pushCompareNE_no_loop n a b stk, pushCompareGE_no_loop n a b stk,
-   pushCompareGT_no_loop n a b stk, pushCompareLE_no_loop n a b stk, pushCompareLT_no_loop n a b stk⟩
-
-/-- the same as a computation over all 6 × 14 × 14 cases; when it fails,
-    `#eval looping Gen.OperandOrder.procedures 3` lists the looping (procedure, left, right) triples -/
-theorem T_order_no_looping_pair : looping procedures 3 = [] := looping_none
-
-/-- every procedure pushes exactly one query (for `==`/`!=`: when no literal has an unforeseen type) -/
-theorem T_order_pushes_one (n : Nat) (a b : Opnd) (stk : Stack) :
-    (a.known = true → b.known = true →
-      (∃ t, pushCompareEQ (n + 3) a b stk = .ok (t :: stk)) ∧ (∃ t, pushCompareNE (n + 3) a b stk = .ok (t :: stk))) ∧
-    (∃ t, pushCompareGE (n + 3) a b stk = .ok (t :: stk)) ∧ (∃ t, pushCompareGT (n + 3) a b stk = .ok (t :: stk)) ∧
-    (∃ t, pushCompareLE (n + 3) a b stk = .ok (t :: stk)) ∧ (∃ t, pushCompareLT (n + 3) a b stk = .ok (t :: stk)) :=
-  ⟨fun ha hb => ⟨pushCompareEQ_pushes n a b ha hb stk, pushCompareNE_pushes n a b ha hb stk⟩,
-   pushCompareGE_pushes n a b stk, pushCompareGT_pushes n a b stk,
-   pushCompareLE_pushes n a b stk, pushCompareLT_pushes n a b stk⟩
-
-example : (⟨.literal .float64, true, .fst⟩ : Opnd).known = true := rfl
-
-/-- **`==`.** What the regenerated `pushCompareEQ` pushes for two built operands is `Build.mkEq`:
-    same operand order, same comparator, same validator. -/
-theorem T_order_eq (n : Nat) (l r : P) (hl : litParsed l = true) (hr : litParsed r = true) (stk : Stack) :
-    ∃ t, pushCompareEQ (n + 3) (opndOfP .fst l) (opndOfP .snd r) stk = .ok (t :: stk) ∧
-      qOfTag? l r t = some (mkEq l r) :=
-  pushCompareEQ_agrees n l r hl hr stk
-
-/-- The statement of `T_order_eq` without the hypothesis on the literals. It is FALSE, and the reason is
-    the model, not the code: `Build.litTyOfVal` is total (a `json.Number` literal would get the numeric
-    validator, any other value the nil validator) while the Go type switch has cases for float64, bool,
-    string, nil only and pushes nothing otherwise. No such literal can be parsed (`litParsed`), so
-    `T_order_eq` is the strongest true statement. Witness: `@ == <json.Number 0>`. -/
-def T_order_eq_full : Prop :=
-  ∀ (n : Nat) (l r : P) (stk : Stack),
-    ∃ t, pushCompareEQ (n + 3) (opndOfP .fst l) (opndOfP .snd r) stk = .ok (t :: stk) ∧
-      qOfTag? l r t = some (mkEq l r)
-
-theorem T_order_eq_full_false : ¬ T_order_eq_full := by
-  intro h
-  obtain ⟨t, h1, _⟩ := h 0 (.pcur []) (.lit (.jnum 0)) []
-  have h2 : pushCompareEQ 3 (opndOfP .fst (.pcur [])) (opndOfP .snd (.lit (.jnum 0))) [] = .ok [] := rfl
-  rw [h2] at h1
-  cases h1
-
-/-- **`!=`** is `.not (mkEq …)`. -/
-theorem T_order_ne (n : Nat) (l r : P) (hl : litParsed l = true) (hr : litParsed r = true) (stk : Stack) :
-    ∃ t, pushCompareNE (n + 3) (opndOfP .fst l) (opndOfP .snd r) stk = .ok (t :: stk) ∧
-      qOfTag? l r t = some (.not (mkEq l r)) :=
-  pushCompareNE_agrees n l r hl hr stk
-
-/-- **`<  <=  >  >=`** are `Build.mkOrd` (no hypothesis: these do not look at the literal's type). -/
-theorem T_order_ord (n : Nat) (l r : P) (stk : Stack) :
-    (∃ t, pushCompareLT (n + 3) (opndOfP .fst l) (opndOfP .snd r) stk = .ok (t :: stk) ∧ qOfTag? l r t = some (mkOrd .lt l r)) ∧
-    (∃ t, pushCompareLE (n + 3) (opndOfP .fst l) (opndOfP .snd r) stk = .ok (t :: stk) ∧ qOfTag? l r t = some (mkOrd .le l r)) ∧
-    (∃ t, pushCompareGT (n + 3) (opndOfP .fst l) (opndOfP .snd r) stk = .ok (t :: stk) ∧ qOfTag? l r t = some (mkOrd .gt l r)) ∧
-    (∃ t, pushCompareGE (n + 3) (opndOfP .fst l) (opndOfP .snd r) stk = .ok (t :: stk) ∧ qOfTag? l r t = some (mkOrd .ge l r)) :=
-  ⟨pushCompareLT_agrees n l r stk, pushCompareLE_agrees n l r stk,
-   pushCompareGT_agrees n l r stk, pushCompareGE_agrees n l r stk⟩
-
-/-- the hypotheses are met by `1 == $.a` (the literal is swapped to the right, typed comparator) -/
-example : litParsed (.lit (.num 1)) = true ∧ litParsed (.proot [.child ⟨"a", "", false, false⟩ "a"]) = true := ⟨rfl, rfl⟩
-example : pushCompareEQ 3 (opndOfP .fst (.lit (.num 1))) (opndOfP .snd (.proot [])) [] =
-    .ok [.cmp ⟨.root, true, .snd⟩ ⟨.literal .float64, true, .fst⟩ (.directEQ .numeric)] := rfl
-/-- `1 < 2`: both operands carry isLiteral; one push, no mutual call -/
-example : pushCompareLT 3 (opndOfP .fst (.lit (.num 1))) (opndOfP .snd (.lit (.num 2))) [] =
-    .ok [.cmp ⟨.literal .float64, true, .fst⟩ ⟨.literal .float64, true, .snd⟩ .lt] := rfl
-
-/-- recorded, not relied upon: the type switch of `pushCompareEQ` has no `default`, so for a literal of
-    another type nothing would be pushed (and `pushCompareNE` would pop whatever lies below).
-    The literal actions only push float64, bool, string, nil. -/
-theorem T_order_eq_other_literal (n : Nat) (a : Opnd) (il : Bool) (s : Side) (stk : Stack) :
-    pushCompareEQ (n + 3) a ⟨.literal .other, il, s⟩ stk = .ok stk ∨
-    ∃ t, pushCompareEQ (n + 3) a ⟨.literal .other, il, s⟩ stk = .ok (t :: stk) :=
-  pushCompareEQ_other n a il s stk
-example : pushCompareNE 3 ⟨.currentRoot, false, .fst⟩ ⟨.literal .other, true, .snd⟩ [] = .error .popEmpty := rfl
-
-end
-
-/-! ## 4. extracted facts (T2)
-`rfl` is the fast path (both sides unfold to the same literal); when the tables differ it fails and
-`decide` reports that the equation is false. -/
-
-theorem facts_writes : Gen.Facts.writes = Expect.writes := by first | rfl | decide
-theorem facts_pkgVarAssign : Gen.Facts.pkgVarAssign = Expect.pkgVarAssign := by first | rfl | decide
-theorem facts_returns : Gen.Facts.returns = Expect.returns := by first | rfl | decide
-theorem facts_filterInput : Gen.Facts.filterInput = Expect.filterInput := by first | rfl | decide
-theorem facts_pool : Gen.Facts.pool = Expect.pool := by first | rfl | decide
-theorem facts_parseWrapper : Gen.Facts.parseWrapper = Expect.parseWrapper := by first | rfl | decide
-theorem facts_parserRefs : Gen.Facts.parserRefs = Expect.parserRefs := by first | rfl | decide
-theorem facts_panics : Gen.Facts.panics = Expect.panics := by first | rfl | decide
-theorem facts_assertions : Gen.Facts.assertions = Expect.assertions := by first | rfl | decide
-theorem facts_index0 : Gen.Facts.index0 = Expect.index0 := by first | rfl | decide
-theorem facts_pkgVars : Gen.Facts.pkgVars = Expect.pkgVars := by first | rfl | decide
-
-/-! Readable consequences, each checked directly on the regenerated tables (so a harmless change of an
-unrelated row does not disturb them). -/
-
-def col (r : Row) (i : Nat) : String := r[i]?.getD ""
-
-/-- no `compute`, `validate`, `comparator` or `getIndexes` returns one of its own parameters — in particular
-    a comparison never returns the list it was given (what f0c052a repaired) -/
-theorem fact_no_method_returns_its_input :
-    (Gen.Facts.returns.all fun r => col r 2 != "param") = true := by decide
-
-/-- what a comparison's `compute` returns: the left operand's list, `emptyList`, `fullList`, `emptyList` -/
-theorem fact_compare_query_returns :
-    (Gen.Facts.returns.filter fun r => col r 0 == "syntaxBasicCompareQuery.compute").map (fun r => (col r 2, col r 3)) =
-      [("local", "leftValues=call:compute"), ("pkgvar", "emptyList"), ("pkgvar", "fullList"), ("pkgvar", "emptyList")] := by
-  decide
-
-/-- an array's filter hands `compute` the caller's slice; an object's filter a list of its own -/
-theorem fact_filter_input :
-    Gen.Facts.filterInput =
-      [["syntaxFilterQualifier.retrieveList", "srcList", "param", "srcList"],
-       ["syntaxFilterQualifier.retrieveMap", "valueList", "local", "valueList=call:compute+make"]] := by
-  decide
-
-/-- the marker and the two marker lists are never written through, and never assigned -/
-theorem fact_markers_never_written :
-    (Gen.Facts.writes.all fun r => col r 3 != "emptyEntity" && col r 3 != "emptyList" && col r 3 != "fullList") = true ∧
-    (Gen.Facts.pkgVarAssign.all fun r => col r 0 == "Parse" || col r 0 == "Parse·func") = true := by
-  decide
-
-/-- the only writes through a *parameter's* index are: validators and comparators (the list being
-    filtered) and the two `Accessor.Set` closures (the document, on the user's request) -/
-theorem fact_param_index_writes :
-    ((Gen.Facts.writes.filter fun r => col r 1 == "index" && col r 4 == "param").map fun r => col r 0) =
-      ["syntaxBasicBoolTypeValidator.validate", "syntaxBasicNilTypeValidator.validate",
-       "syntaxBasicNode.retrieveListNext·func", "syntaxBasicNode.retrieveMapNext·func",
-       "syntaxBasicNumericTypeValidator.validate", "syntaxBasicStringTypeValidator.validate",
-       "syntaxCompareDeepEQ.comparator", "syntaxCompareDirectEQ.comparator", "syntaxCompareGE.comparator",
-       "syntaxCompareGT.comparator", "syntaxCompareLE.comparator", "syntaxCompareLT.comparator",
-       "syntaxCompareRegex.comparator"] := by
-  decide
-
-/-- `Parse`: lock first; exactly one defer, registered second, doing recover → reset → unlock;
-    config copied only when given; the closure captures `root` and no package variable -/
-theorem fact_parse_wrapper :
-    ["00-first-statement", "parseMutex.Lock()"] ∈ Gen.Facts.parseWrapper ∧
-    ["01-defer-count", "1"] ∈ Gen.Facts.parseWrapper ∧
-    ["02-defer", "0", "second-statement", "recover,reset,unlock"] ∈ Gen.Facts.parseWrapper ∧
-    ((Gen.Facts.parseWrapper.filter fun r => col r 0 == "04-config-copy").all fun r => col r 2 == "len(config) > 0") = true ∧
-    ((Gen.Facts.parseWrapper.filter fun r => col r 0 == "06-closure-uses").map fun r => (col r 1, col r 2)) =
-      [("getContainer", "pkgfunc"), ("putContainer", "pkgfunc"), ("root", "local-of-Parse:field:parser.jsonPathParser.root")] ∧
-    (Gen.Facts.parserRefs.all fun r => col r 0 == "Parse" || col r 0 == "Parse·func") = true := by
-  decide
-
-/-- every `panic` raises one of the documented syntax-check errors -/
-theorem fact_panics_documented :
-    (Gen.Facts.panics.all fun r =>
-      col r 1 == "lit:ErrorInvalidArgument" || col r 1 == "lit:ErrorFunctionNotFound" ||
-      col r 1 == "lit:ErrorNotSupported" || col r 1 == "lit:ErrorInvalidSyntax" ||
-      col r 1 == "call:p.syntaxErr") = true := by
-  decide
-
-/-- every `getContainer` is paired with a deferred `putContainer` in the same function -/
-theorem fact_pool_container :
-    ((Gen.Facts.pool.filter fun r => col r 1 == "getContainer").all fun r =>
-      Gen.Facts.pool.contains [col r 0, "putContainer", col r 2, col r 2]) = true := by
-  decide
-
-end Ties
-end JPV
+import JPV.Props.TiesValidators
+import JPV.Props.TiesComparators
+import JPV.Props.TiesOrder
+import JPV.Props.Facts.Writes
+import JPV.Props.Facts.PkgVarAssign
+import JPV.Props.Facts.Returns
+import JPV.Props.Facts.FilterInput
+import JPV.Props.Facts.Pool
+import JPV.Props.Facts.ParseWrapper
+import JPV.Props.Facts.ParserRefs
+import JPV.Props.Facts.Panics
+import JPV.Props.Facts.Assertions
+import JPV.Props.Facts.Index0
+import JPV.Props.Facts.PkgVars
+import JPV.Props.Facts.FactMarkersNeverWritten
+import JPV.Props.Facts.FactParseWrapper
 
 -- OBLIGATIONS: JPV.Ties.T_validator_table JPV.Ties.T_validator_cell JPV.Ties.T_validator_list JPV.Ties.T_validator_any JPV.Ties.T_comparator_embeds JPV.Ties.T_comparator_validator JPV.Ties.T_comparator_valStep JPV.Ties.T_comparator_skip JPV.Ties.T_comparator_test JPV.Ties.T_comparator_loop JPV.Ties.T_order_procedures JPV.Ties.T_order_terminates JPV.Ties.T_order_no_looping_pair JPV.Ties.T_order_pushes_one JPV.Ties.T_order_eq JPV.Ties.T_order_eq_full_false JPV.Ties.T_order_ne JPV.Ties.T_order_ord JPV.Ties.T_order_eq_other_literal JPV.Ties.facts_writes JPV.Ties.facts_pkgVarAssign JPV.Ties.facts_returns JPV.Ties.facts_filterInput JPV.Ties.facts_pool JPV.Ties.facts_parseWrapper JPV.Ties.facts_parserRefs JPV.Ties.facts_panics JPV.Ties.facts_assertions JPV.Ties.facts_index0 JPV.Ties.facts_pkgVars JPV.Ties.fact_no_method_returns_its_input JPV.Ties.fact_compare_query_returns JPV.Ties.fact_filter_input JPV.Ties.fact_markers_never_written JPV.Ties.fact_param_index_writes JPV.Ties.fact_parse_wrapper JPV.Ties.fact_panics_documented JPV.Ties.fact_pool_container
